@@ -185,7 +185,10 @@ SPECIAL = ["#\n", "# \n", "|a||\n|-|-|\n| | |\n", "![](u)\n", "![a ![b ![c](d)](
 def run(ctx):
     rng = ctx.rng
     confs = W.PANEL + [{"preset": "commonmark", "options": {"store_labels": True, "inline_definitions": True}},
-                       {"preset": "js-default", "options": {"store_labels": True}}, {"preset": "gfm-like", "stub_linkify": True, "options": {"typographer": True}}]
+                       {"preset": "js-default", "options": {"store_labels": True}}, {"preset": "gfm-like", "stub_linkify": True, "options": {"typographer": True}},
+                       # post-processing rules off: token levels are then not recomputed, the tree must still follow the nesting
+                       {"preset": "commonmark", "disable": ["fragments_join"]}, {"preset": "js-default", "disable": ["fragments_join", "balance_pairs"]},
+                       {"preset": "commonmark", "enable": ["strikethrough"], "disable": ["fragments_join"]}]
     k = 0
     for src in SPECIAL:
         for conf in confs:
